@@ -32,7 +32,9 @@ func vLinTransCase(c *vCtx, idx []int, ratio, ltLevel, ctLevel int, tag string) 
 	}
 	// the output object held other data before: nothing of it may survive
 	out := vAtomCiphertext(c, lvl, "junk", 9)
+	inScale, inMeta := ct.Scale, ct.MetaData
 	vAssert(eval.Evaluate(ct, lt, out) == nil, tag+"-advertised-Galois-keys-suffice-and-Evaluate-succeeds")
+	vAssert(ct.Scale.Cmp(inScale) == 0 && ct.MetaData == inMeta && out.MetaData != ct.MetaData, tag+"-input-keeps-its-scale-and-the-output-has-its-own-metadata")
 	r := params.RingQ().AtLevel(lvl)
 	phase := vPhase(c, ct)
 	phase.Resize(lvl)
